@@ -62,6 +62,8 @@ enum Stim {
     Unsol(usize),
     Stale(usize),
     LinkNoise(usize),
+    /// disable the channel for this many ms, then enable it and give it a new connection
+    Toggle(u64),
 }
 
 async fn scenario(a: &ShardArgs, idx: u64) {
@@ -116,7 +118,8 @@ async fn scenario(a: &ShardArgs, idx: u64) {
             5 if !polls.is_empty() => Stim::Demand(r.usize_below(polls.len())),
             6 => Stim::Unsol(ai),
             7 => Stim::Stale(ai),
-            8 => Stim::LinkNoise(ai),
+            8 if r.bool() => Stim::LinkNoise(ai),
+            8 => Stim::Toggle(*r.pick(&[0u64, 50, 400, 1500])),
             _ => Stim::Submit(ai, 1),
         };
         // traffic stimuli at odd instants so that they never coincide with a model deadline
@@ -398,6 +401,37 @@ async fn scenario(a: &ShardArgs, idx: u64) {
                         sim.send_from(BASE + ai as u16, &ra::B::response(ra::FIR | ra::FIN | s, false, 0, 0).done());
                         am[ai].last_rx = now;
                         hist.push(format!("t={now} <- stale response from assoc={ai}"));
+                        settle().await;
+                    }
+                    Stim::Toggle(down) => {
+                        hist.push(format!("t={now} channel disabled for {down} ms"));
+                        let _ = sim.channel.disable().await;
+                        settle().await;
+                        let _ = sim.collect();
+                        // what was outstanding is abandoned, queued user requests fail, a poll in flight is rescheduled from now
+                        if let Some(o) = outstanding.take() {
+                            if let What::Poll(p) = o.what {
+                                polls[p].due = now + polls[p].period;
+                                polls[p].inflight = false;
+                            }
+                        }
+                        for u in users.iter_mut() {
+                            u.sent = true;
+                        }
+                        let until = now + down;
+                        while sim.now() < until {
+                            sim.advance((until - sim.now()).min(50)).await;
+                            for x in sim.collect() {
+                                if let Rx::Fragment { .. } | Rx::Link { .. } = x {
+                                    violations.push(("Q7_write_while_disabled".into(), "disabled".into(), format!("t={}: the master wrote {x:?} while its channel was disabled", sim.now())));
+                                }
+                            }
+                        }
+                        out::count("Q7_silent_while_disabled_ok", 1);
+                        let _ = sim.channel.enable().await;
+                        sim.connect().await;
+                        t_free = sim.now();
+                        hist.push(format!("t={} channel enabled, new connection", sim.now()));
                         settle().await;
                     }
                     Stim::LinkNoise(ai) => {
